@@ -172,7 +172,6 @@ structure St where
   n : Nat := 0
   nOk : Nat := 0
   fwd : Nat := 0
-  dropped : Nat := 0
   ticks : Nat := 0
   heights : Nat := 0
   reobsFwd : Nat := 0
@@ -314,10 +313,9 @@ def doHunconf (st : St) (id : String) (fs : List String) : St × List String :=
 
 /-! ## re-observation -/
 
-def reobsTrace (cfg : Cfg) (tbl : TiTable) (node : ReobsNode) (chain hashLen : Nat) (tx : String) : List String :=
+def reobsTrace (cfg : Cfg) (tbl : TiTable) (node : ReobsNode) (statusRaw : String) (chain hashLen : Nat) (tx : String) : List String :=
   if chain ≠ 255 || hashLen ≠ 32 then [] else
-  let showStatus := match node.status with | none => "e" | some .other => "?" | some (.confirmed bh) => s!"c:{bh}"
-  let l0 := [s!"status:{tx}>{showStatus}"]
+  let l0 := [s!"status:{tx}>{statusRaw}"]
   match node.status with
   | some (.confirmed bh) =>
     match node.txEvents with
@@ -383,7 +381,7 @@ def doReobs (st : St) (id : String) (fs : List String) : St × List String :=
           | none =>
             let good := cands.filter fun c => c.all (·.2)
             if count p impl > good.length then some s!"reobs-forwarded-twice {p}" else none
-      let exp := reobsTrace cfg tbl node chain hash.length tx
+      let exp := reobsTrace cfg tbl node status chain hash.length tx
       let diff := if model ≠ impl then some s!"reobserve model={model} impl={impl}"
                   else if reqs ≠ exp then some s!"reobserve requests model={exp} impl={reqs}" else none
       let (st, out) := single st id spec diff
@@ -515,7 +513,7 @@ def doWtick (st : St) (fs : List String) : St × List String :=
         else if s'.enabled ≠ en then c.addDiff s!"block poller enabled after tick: model={s'.enabled} impl={en}"
         else c
       let c := track { c with st := s' } (delivered.getD [])
-      let grew := match cnt, pagesRaw.getLast? with | some (some cn), some (_, some nx) => decide (nx > cn) | _, _ => false
+      let grew : Bool := match cnt, pagesRaw.getLast? with | some cn, some (_, some nx) => decide (nx > cn) | _, _ => false
       ({ st with c := c, ticks := st.ticks + 1, pages := st.pages + pagesRaw.length, grew := st.grew + (if grew then 1 else 0) }, [])
   | _, _, _, _, _ => ({ st with c := c.addDiff "unparsable wtick line" }, [])
 
@@ -582,8 +580,7 @@ def doWheight (st : St) (fs : List String) : St × List String :=
         | some p => c.addSpec s!"final-message-not-forwarded {p} is final, from the token bridge, its block stayed canonical, yet it was forwarded {count p c.fwdAll} times (owed {count p owed})"
         | none => c
       else c
-    ({ st with c := c, heights := st.heights + 1, fwd := st.fwd + impl.length,
-               dropped := st.dropped + (entries.length - (if exit then entries.length else 0)) * 0 }, [])
+    ({ st with c := c, heights := st.heights + 1, fwd := st.fwd + impl.length }, [])
   | _, _, _, _, _, _, _, _ => ({ st with c := c.addDiff "unparsable wheight line" }, [])
 
 def step (st : St) (line : String) : St × List String :=
